@@ -368,7 +368,7 @@ def suite_validate(ctx):
     grid = emg3d.TensorMesh([[1., 2.], [1., 1.], [3.]], (0, 0, 0))
     shp = grid.shape_cells
     bad, lines, meta = [], [], []
-    n = 400 if ctx.thorough else 120
+    n = 450 if ctx.thorough else 150
 
     def attempt(fn):
         try:
@@ -386,7 +386,8 @@ def suite_validate(ctx):
         m = MAPS[t % 6]
         name = ['property_x', 'property_y', 'property_z', 'mu_r',
                 'epsilon_r'][(t//6) % 5]
-        how = ['ctor', 'setter', 'setter-unset', 'ctor-scalar'][(t//30) % 4]
+        how = ['ctor', 'setter', 'setter-unset', 'ctor-scalar',
+               'setter-inplace'][(t//30) % 5]
         # values: mostly valid with 0..2 special entries, or all special
         good = 10.0**rng.uniform(-3, 3, shp)
         if 'property' in name:
@@ -422,14 +423,24 @@ def suite_validate(ctx):
                     np.asarray(mp.forward(good), float)
             elif name == 'property_x':
                 how = 'setter'
+            if how == 'setter-inplace':
+                # what an augmented assignment (`model.mu_r *= x`) does: the
+                # model's own array, edited in place, is handed to the setter
+                kw[name] = good if 'property' not in name else \
+                    np.asarray(mp.forward(good), float)
             mod = emg3d.Model(grid, mapping=m, **kw)
             unset = int(how == 'setter-unset')
             before = None if unset else getattr(mod, name).copy()
+            if how == 'setter-inplace':
+                own = getattr(mod, name)
+                own[...] = np.asarray(vals, float)
+                inp = own
+                before = own.copy()
             exc = attempt(lambda: setattr(mod, name, inp))
             # a rejected assignment leaves the model unchanged
             after = getattr(mod, name)
-            if exc is not None and not unset and \
-                    not np.array_equal(before, after):
+            if exc is not None and not unset and how != 'setter-inplace' \
+                    and not np.array_equal(before, after, equal_nan=True):
                 bad.append(('rejected assignment modified the model', m, name))
                 ctx.violation('rejected-assignment-modified-model',
                               f'{m} {name}: setter raised but values changed',
